@@ -22,6 +22,8 @@ def run(ctx):
     srt = lambda f: f.startswith("tsk_table_sorter_")
     lib_order.memcpy_alias(ctx, P, funcs=srt)
     lib_order.bookmark_cursor(ctx, P)
+    import re as _re
+    lib_module.module_guards(ctx, P, only=lambda f: _re.fullmatch(r"TreeSequence_get_(node|edge|migration|site|mutation|individual|population|provenance)", f) is not None)
     lib_order.comparators(ctx, P)
     lib_schema.argname(ctx, P, tus=("tables",), funcs=srt)
     lib_py.row_independent(ctx, py)
